@@ -18,6 +18,7 @@ TRUSTED = ["Coq 8.16.1 kernel, vm_compute for the correspondence evaluation",
            "coq/Agree.v agreement relation (relative tolerance 1e-9; signs compared only when |sd|>1e-8 unless arithmetic is exact)",
            "NumPy, vg"]
 CASE_IMPORTS = [("PW.model", "M_plane")]
+DEFINITIONAL = ["C05_stacked_is_map_single", "C05_pairs_is_map_single", "C05_distance_is_abs"]
 ASSUMPTIONS = ["theorems are about exact real arithmetic; binary64 rounding is covered only by the tolerance of the "
                "correspondence check on sampled inputs"]
 
@@ -124,7 +125,10 @@ def gen_cases(rng, n, tier):
     cases = []
     for i in range(n):
         u = rng.random()
-        scale = 2.0 ** rng.randint(-10, 10) if tier != "thorough" else 2.0 ** rng.randint(-30, 30)
+        if tier == "thorough" or rng.random() < 0.15:
+            scale = 2.0 ** rng.randint(-30, 30)
+        else:
+            scale = 2.0 ** rng.randint(-10, 10)
         if u < 0.45:
             nrm = [float(x) for x in rational_unit_normal(rng)]
             nn = np.array(nrm)
@@ -207,6 +211,11 @@ def run_impl(c):
                 "onfront_inv": pl.points_on_or_in_front(pts, inverted=True, ret_indices=True).tolist(),
                 "front_pts": pl.points_in_front(pts).tolist(),
                 "onfront_inv_pts": pl.points_on_or_in_front(pts, inverted=True).tolist(),
+                "front_inv_pts": pl.points_in_front(pts, inverted=True).tolist(),
+                "onfront_pts": pl.points_on_or_in_front(pts).tolist(),
+                "single_sign": [int(pl.sign(p)) for p in pts],
+                "single_dist": [float(pl.distance(p)) for p in pts],
+                "single_mirror": [pl.mirror_point(p).tolist() for p in pts],
                 "proj": pl.project_point(pts).tolist(), "mirror": pl.mirror_point(pts).tolist(),
                 "eq": pl.equation.tolist(), "canon": pl.canonical_point.tolist(),
                 "flip_eq": pl.flipped().equation.tolist(),
@@ -247,11 +256,13 @@ def coq_case(c, o):
         return "CShared [] (E4 0 0 0 0) [FNan] [] []"
     if c["kind"].startswith("plane"):
         pl = "(MkPlane %s %s)" % (qv(o["ref"]), qv(o["normal"]))
-        obs = "(PlaneObs %s %s %s %s %s %s %s %s %s %s %s %s %s %s %s)" % (
+        obs = "(PlaneObs %s %s %s %s %s %s %s %s %s %s %s %s %s %s %s %s %s %s %s %s)" % (
             flv(o["sd"]), coq_list(coq_Z(s) for s in o["sign"]), flv(o["dist"]),
             coq_list(coq_nat(i) for i in o["front"]), coq_list(coq_nat(i) for i in o["front_inv"]),
             coq_list(coq_nat(i) for i in o["onfront"]), coq_list(coq_nat(i) for i in o["onfront_inv"]),
-            _vecs(o["front_pts"]), _vecs(o["onfront_inv_pts"]), _vecs(o["proj"]), _vecs(o["mirror"]),
+            _vecs(o["front_pts"]), _vecs(o["onfront_inv_pts"]), _vecs(o["front_inv_pts"]), _vecs(o["onfront_pts"]),
+            coq_list(coq_Z(s) for s in o["single_sign"]), flv(o["single_dist"]), _vecs(o["single_mirror"]),
+            _vecs(o["proj"]), _vecs(o["mirror"]),
             flv(o["eq"]), flv(o["canon"]), flv(o["flip_eq"]), flv(o["single_sd"]))
         return "CPlane %s %s %s %s" % (coq_bool(c["exact"]), pl, coq_list(qv(p) for p in c["points"]), obs)
     if c["kind"] in ("shared", "shared_single", "shared_int_points"):
@@ -335,6 +346,20 @@ def oracle(c, o):
             return "points_in_front does not return the rows at its indices"
         if o["onfront_inv_pts"] != [c["points"][i] for i in oni]:
             return "points_on_or_in_front(inverted) does not return the rows at its indices"
+        if o["front_inv_pts"] != [c["points"][i] for i in fri]:
+            return "points_in_front(inverted) does not return the rows at its indices"
+        if o["onfront_pts"] != [c["points"][i] for i in on]:
+            return "points_on_or_in_front does not return the rows at its indices"
+        for i in range(k):
+            if o["single_sign"][i] != o["sign"][i] and (c["exact"] or abs(sds[i]) > band):
+                return "single-point sign differs from the stacked sign at row %d" % i
+        # (stacked and single forms may differ in the last ulp: different summation order inside NumPy)
+        for i in range(k):
+            if not _close(o["single_dist"][i], Fr(o["dist"][i]), mag):
+                return "single-point distance differs from the stacked distance at row %d" % i
+            for j in range(3):
+                if not _close(o["single_mirror"][i][j], Fr(o["mirror"][i][j]), mag):
+                    return "single-point mirror_point differs from the stacked result at row %d" % i
         # equation / canonical point / flipped
         e = _F(o["eq"])
         if e[:3] != nrm or not _close(o["eq"][3], -_dot(ref, nrm), mag):
@@ -352,14 +377,16 @@ def oracle(c, o):
     if len(o["sd"]) != len(pts) or len(o["proj"]) != len(pts) or len(o["mirror"]) != len(pts):
         return "stacked result has the wrong number of rows"
     for i, (p, e) in enumerate(zip(pts, eqs)):
-        mag = max([1] + [abs(x) for x in p] + [abs(x) for x in e])
+        # rounding is relative to the terms that are actually added: |p||n| + |d| for sd, times (1 + |n|^2) for the moves
+        nmax = max([1] + [abs(x) for x in e[:3]])
+        mag = (max([1] + [abs(x) for x in p]) * nmax + abs(e[3])) * 3
         sd = _dot(p, e[:3]) + e[3]
-        if not _close(o["sd"][i], sd, mag * mag):
+        if not _close(o["sd"][i], sd, mag):
             return "signed_distance_to_plane row %d is not p.n + d" % i
         for j in range(3):
-            if not _close(o["proj"][i][j], p[j] - sd * e[j], mag ** 3):
+            if not _close(o["proj"][i][j], p[j] - sd * e[j], mag * (1 + nmax * nmax)):
                 return "project_point_to_plane row %d is not p - sd*n" % i
-            if not _close(o["mirror"][i][j], p[j] - 2 * sd * e[j], mag ** 3):
+            if not _close(o["mirror"][i][j], p[j] - 2 * sd * e[j], mag * (1 + nmax * nmax) * 2):
                 return "mirror_point_across_plane row %d is not p - 2*sd*n" % i
     return None
 
